@@ -24,6 +24,9 @@ CHECKS = {
  "C11": ("exploration", "bounded-exhaustive input enumeration (E4) of the real EncryptMessage/DecryptMessage",
          "All 8x8 sender/receiver key agreements in both directions for 5 message types x 3 sizes, all 8x8x8 current/previous receiver combinations, and for one envelope per message kind every single-bit flip, every truncation, every short BlobInfo, field deletions and all 1- and 2-byte envelopes are decrypted by the real code; the oracle is the property's (round trip iff secret and key id match; mutated => error or the original plaintext; never a panic).",
          "Cryptographic strength of X25519/AES-GCM is trusted; multi-byte random mutations are not claimed.", "6/C11", "E4"),
+ "C13": ("fault_enumeration", "exhaustive single (thorough: double) deviation enumeration over every storage call of every flow (E3) on the real code",
+         "Each of 17 flows is first run fault-free to count its storage calls; then for every call position and each of three error kinds the flow is re-run from a fresh clone with that call failing without effect (thorough: every pair of positions as well). An error must come without credentials / token / certificates / roots; a success must be reflected in storage; a node record created from a token implies the token record is gone; a failed call leaves every existing node record byte-identical.",
+         "Storage calls are atomic (message-granular interface, no torn writes). Faults that turn a refusal into a durable success are not judged (the property allows a fully reflected result).", "6/C13", "E3"),
  "C19": ("model_checking", "explicit-state BFS of the real back ends against a map model (E1) + exhaustive schedule exploration of the in-memory back end under a controlled scheduler with porcupine linearizability checking (E2)",
          "Sequential: every operation sequence over 4 types x 2 ids x 2 values (plus refused operations) up to the stated depth / fixpoint on inmem, file and store-once, with a full load+list comparison after every transition. Concurrent: all interleavings (no preemption bound) of 2x2 and 3x1 thread programs colliding on one slot, on the real inmem code with sync replaced by scheduler-owned shims; each history must be linearizable w.r.t. the map model.",
          "Scheduling points are lock operations only (sequential consistency between them); data-race freedom is reported by the free-running -race companion, which is sampling. Shim fidelity to sync.RWMutex semantics is part of the trusted base.", "6/C19", "E1+E2+R"),
